@@ -69,7 +69,7 @@ def _width(desc):
 
 def configs(tier, seed):
     rnd = random.Random(seed)
-    widths = [1, 2, 3, 5, 8, 33, 64] if tier == "quick" else [1, 2, 3, 4, 5, 6, 7, 8, 9, 12, 16, 24, 32, 33, 64, 65]
+    widths = [1, 2, 3, 5, 8, 33, 64, 65, 130] if tier == "quick" else [1, 2, 3, 4, 5, 6, 7, 8, 9, 12, 16, 24, 32, 33, 64, 65, 72, 128, 130, 257]
     shapes = [("u", w) for w in widths] + [("s", w) for w in widths[:4] + widths[-1:]] + [("e3", 0), ("e2s", 0)] + \
         [("rng5", 0), ("rngs", 0), ("f3", 0)]
     out = []
